@@ -351,7 +351,9 @@ impl Tokenizer<'_> {
 
             State::Pound(start) => Err(KikiErr::Lex(start, Some('#'))),
 
-            State::OuterAttribute(start, _, end) => self.finish_outer_attribute(start, end),
+            // We only get here if the input ends (`current` is `None`)
+            // before the attribute's closing bracket.
+            State::OuterAttribute(_, _, _) => Err(KikiErr::Lex(current_index, current)),
         }?;
 
         self.state = State::Main;
